@@ -12,6 +12,7 @@ imported or called.
 from __future__ import annotations
 
 import ast
+import collections as _collections_module
 import itertools as _itertools_module
 import operator as _operator_module
 import re as _re_module
@@ -32,9 +33,9 @@ class _NS:
         self.__dict__.update(kw)
 
 
-SAFE_MODULES = {'re': _re_module, 'operator': _operator_module, 'itertools': _itertools_module,
+SAFE_MODULES = {'re': _re_module, 'operator': _operator_module, 'itertools': _itertools_module, 'collections': _collections_module,
                 'os': _NS(path=_posixpath_module), 'urllib': _NS(parse=_urlparse_module, request=_NS(pathname2url=_urlrequest_module.pathname2url))}
-_SAFE_VALUES = (_re_module, _operator_module, _itertools_module, _posixpath_module, _urlparse_module)
+_SAFE_VALUES = (_re_module, _operator_module, _itertools_module, _posixpath_module, _urlparse_module, _collections_module)
 
 
 class _Return(Exception):
